@@ -6,7 +6,7 @@
      molli/chem/ensemble.py   ConformerEnsemble.translate / rotate / center_at_atom / center_at_core / align_to_ref_coords
      molli/chem/molecule.py   Molecule.align_to_ref_coords
    Square roots (np.linalg.norm) enter the model as an extra argument `n` ("the norm of v"); theorems
-   assume n > 0 /\ n*n = v.v, executions check a 2^-100 rational witness (sqrt_witness_ok). *)
+   assume n > 0 /\ n*n = v.v, executions check a 2^-60 rational witness (sqrt_witness_ok). *)
 From Coq Require Import List ZArith QArith Qabs Bool.
 From Molli Require Import Common.Field3.
 Import ListNotations.
